@@ -1,6 +1,7 @@
 ------------------------------ MODULE Position ------------------------------
 (* lexer.Position: byte offset, line, column.  PosOf is the meaning property C04 gives to a position
    (from the input alone); Advance is the incremental update of lexer.Position.Advance over a span.
+   Add is lexer.Position.Add: the position of a place inside an embedded text, given where the embedded text starts.
    Characters are <<code point, byte width, is-newline>>.                                    *)
 EXTENDS Integers, Sequences, TLC
 
@@ -24,6 +25,12 @@ Advance(p, s, a, b) ==   \* span = s[a .. b-1]
   LET lines == SpanNewlines(s, a, b) IN
   Pos(p.off + SpanBytes(s, a, b), p.line + lines,
       IF lines = 0 THEN p.col + (b - a) ELSE RunesFromLastNL(s, a, b))
+
+\* the code of lexer.Position.Add ("the sum of this position and pos ... useful when parsing values from a parent grammar"):
+\* q is a position inside an embedded text that starts at p
+Add(p, q) == Pos(p.off + q.off, p.line + q.line - 1, IF q.line > 1 THEN q.col ELSE p.col + q.col - 1)
+\* sub-text s[a ..] as a text of its own
+TextFrom(s, a) == [k \in 1..(Len(s) - a + 1) |-> s[a + k - 1]]
 
 PosStr(p) == ToString(p.off) \o ":" \o ToString(p.line) \o ":" \o ToString(p.col)
 =============================================================================
